@@ -1,4 +1,5 @@
 """C09 — version-gated detectors follow the file's 'pragma solidity' version (DESIGN 5/C09)."""
+import re
 from runner import Ob
 from rules import depend
 import sites as S
@@ -225,6 +226,8 @@ def run(ctx, crate):
                     continue
                 if "Iterator::next(" in a and "get_solidity_major_minor_patch_version" in a and (a.startswith(("is(", "!is("))):
                     continue
+                if COMPONENT_TEST.match(a):
+                    continue  # a variant test of one parsed component (`next()??` with the parse result turned into an Option first)
                 okn = False
                 whyn.append(a[-160:])
     obs.append(Ob("R09.pragma", VERSION_FN, "a solidity directive is dropped only for a missing or unparsable component", okn and len(comp_calls) == 3,
@@ -249,9 +252,54 @@ def run(ctx, crate):
             for cterm, s_ in zip(terms, comp_sorted):
                 r = s_.result
                 r = core.mk_proj(core.mk_proj(r, ("dc", "Some")), ("f", 0, "0"))
-                r = core.mk_proj(core.mk_proj(r, ("dc", "Ok")), ("f", 0, "0"))
-                if cterm != r:
+                r_ok = core.mk_proj(core.mk_proj(r, ("dc", "Ok")), ("f", 0, "0"))
+                r_some = core.mk_proj(core.mk_proj(r, ("dc", "Some")), ("f", 0, "0"))  # (the closure may hand on `parse().ok()`)
+                if cterm != r_ok and cterm != r_some:
                     okv = False
+    # which advance of the component iterator each member of the triple comes from: the value terms of the three `next()` results coincide (each is "an
+    # element of the iterator"), so the order is read off the definitions: member i must flow, through moves and projections only, from the result
+    # of the i-th advance (the three advances dominating one another in that order)
+    def origin_call(l, pr, depth=0):
+        while depth < 40:
+            depth += 1
+            ds = [d_ for d_ in vb.defs.get(l, []) if d_[2] == []]
+            if len(ds) > 1 and pr and isinstance(pr[0], dict) and "dc" in pr[0]:
+                # built as one variant or another on different paths (the ControlFlow of a `?`): the projection says which
+                ds = [d_ for d_ in ds if d_[3] == "rv" and d_[4]["k"] == "agg" and d_[4].get("variant") == pr[0]["dc"]]
+            if len(ds) != 1:
+                return None
+            (bb_, si_, _pr, kind_, payload_) = ds[0]
+            if kind_ == "call":
+                return bb_
+            if kind_ != "rv":
+                return None
+            if payload_["k"] == "use" and payload_["o"]["k"] in ("move", "copy"):
+                l, pr = payload_["o"]["p"]["l"], list(payload_["o"]["p"]["pr"]) + pr
+                continue
+            if payload_["k"] == "agg" and payload_.get("ak") in ("tuple", "adt") and pr:
+                # a field read back out of a tuple / enum payload that was just built (the match scrutinee `(a, b, c)`, the ControlFlow of a `?`)
+                rest = pr
+                if payload_.get("ak") == "adt":
+                    if not (isinstance(rest[0], dict) and rest[0].get("dc") == payload_.get("variant")):
+                        return None
+                    rest = rest[1:]
+                if rest and isinstance(rest[0], dict) and "f" in rest[0] and rest[0]["f"] < len(payload_["ops"]):
+                    op_ = payload_["ops"][rest[0]["f"]]
+                    if op_["k"] not in ("move", "copy"):
+                        return None
+                    l, pr = op_["p"]["l"], list(op_["p"]["pr"]) + rest[1:]
+                    continue
+                return None
+            return None
+        return None
+    order_ok = False
+    tuples = [st_ for bb_ in vb.reach for st_ in vb.blocks[bb_]["stmts"] if st_["k"] == "assign" and st_["rv"]["k"] == "agg" and st_["rv"].get("ak") == "tuple"
+              and len(st_["rv"]["ops"]) == 3 and "i32, i32, i32" in (st_["p"].get("ty") or "")]
+    if len(tuples) == 1 and len(comp_sorted) == 3:
+        srcs = [origin_call(o_["p"]["l"], list(o_["p"]["pr"])) if o_["k"] in ("move", "copy") else None for o_ in tuples[0]["rv"]["ops"]]
+        chain = all(vb.dominates(comp_sorted[i_].bb, comp_sorted[i_ + 1].bb) and comp_sorted[i_].bb != comp_sorted[i_ + 1].bb for i_ in range(2))
+        order_ok = chain and srcs == [c_.bb for c_ in comp_sorted]
+    okv = okv and order_ok
     # the closure handed to map() on the component iterator (wherever it is declared: the helper may have been split)
     cpaths = set()
     for s_ in comp_calls:
@@ -259,7 +307,14 @@ def run(ctx, crate):
             if x[0] == "agg" and x[1] == "closure":
                 cpaths.add(x[2])
     clo = [crate.bodies[p_] for p_ in sorted(cpaths) if p_ in crate.bodies]
-    okc = len(clo) == 1 and T.is_call(clo[0].val_local(0), "parse::<i32>") and clo[0].val_local(0)[2] and clo[0].val_local(0)[2][0] == ("param", 2)
+    cres = clo[0].val_local(0) if len(clo) == 1 else None
+    if cres is not None and cres[0] == "phi" and len(cres[2]) == 2:
+        # `parse::<i32>().ok()`: Some(the Ok payload) | None
+        ss_ = [m for m in cres[2] if m[0] == "agg" and m[2].endswith("Option::Some") and len(m[3]) == 1]
+        nn_ = [m for m in cres[2] if m[0] == "agg" and m[2].endswith("Option::None")]
+        if len(ss_) == 1 and len(nn_) == 1 and ss_[0][3][0][0] == "proj" and ss_[0][3][0][2] == ("f", 0, "0") and ss_[0][3][0][1][0] == "proj" and ss_[0][3][0][1][2] == ("dc", "Ok"):
+            cres = ss_[0][3][0][1][1]
+    okc = cres is not None and T.is_call(cres, "parse::<i32>") and cres[2] and cres[2][0] == ("param", 2)
     obs.append(Ob("R09.pragma", VERSION_FN, "the triple is the three components in order, each parsed as i32, unmodified", bool(okv and okc),
                   expected="Some((c1, c2, c3)) with ci the i-th parsed component", found="%s ; components parsed by %s" % (
                       [x[-50:] for x in (got_triple or [])], show(clo[0].val_local(0))[:60] if clo else None),
@@ -273,6 +328,7 @@ def run(ctx, crate):
     return obs
 
 
+COMPONENT_TEST = re.compile(r"^!?is\(Iterator::map\(utils::get_solidity_major_minor_patch_version\([^;]*\), closure\(\)\)\[\*\]\??; (Some|Ok|None|Err)\)$")
 EXTRACT_FN = "analyzer::utils::get_solidity_major_minor_patch_version"
 REFERENCE_RE = r"\d+\.\d+\.+\d+"
 
